@@ -38,6 +38,21 @@ type c13Op struct {
 	gos  []bool
 }
 
+// failingWriter accepts room bytes in total and then fails.
+type failingWriter struct{ room int }
+
+var errWriterFailed = fmt.Errorf("writer failed")
+
+func (w *failingWriter) Write(p []byte) (int, error) {
+	if len(p) <= w.room {
+		w.room -= len(p)
+		return len(p), nil
+	}
+	n := w.room
+	w.room = 0
+	return n, errWriterFailed
+}
+
 type goschedWriter struct {
 	b   []byte
 	gos []bool
@@ -127,7 +142,7 @@ func c13Apply(p mq.Packet, kind int, w *goschedWriter) {
 	}
 }
 
-var c13OpNames = []string{"WriteTo", "String", "Dump", "WellFormed", "accessors", "HasFlag+Will()", "ReadPacket(own stream)"}
+var c13OpNames = []string{"WriteTo", "String", "Dump", "WellFormed", "accessors", "HasFlag+Will()", "ReadPacket(own stream)", "WriteTo(failing writer)"}
 
 func runC13(c *sim.Ctx) *sim.Violation {
 	t := c.T
@@ -148,6 +163,19 @@ func runC13(c *sim.Ctx) *sim.Violation {
 		}
 		seq[i] = b
 	}
+	// the process history includes writes that FAILED (a refused write, a partial
+	// write): whatever the encoder does on its error path must not poison later
+	// concurrent use
+	for i, p := range ps {
+		if seq[i] == nil {
+			continue
+		}
+		for _, k := range []int{0, len(seq[i]) / 2} {
+			fw := &failingWriter{room: k}
+			sim.Guard(func() { p.WriteTo(fw) })
+		}
+	}
+	c.Count("probe.failed-writes-before-the-concurrent-phase")
 	// ---- mechanism B: real goroutines. It runs BEFORE the sequential probes of
 	// mechanism A so that lazily initialised state (a memo table filled on first
 	// use) is still cold when the goroutines first touch it.
@@ -159,7 +187,7 @@ func runC13(c *sim.Ctx) *sim.Violation {
 	for g := 0; g < N; g++ {
 		n := 4 + t.Int(29)
 		for k := 0; k < n; k++ {
-			op := c13Op{pkt: t.Int(len(ps)), kind: t.Int(7)}
+			op := c13Op{pkt: t.Int(len(ps)), kind: t.Int(8)}
 			for j := 0; j < 4; j++ {
 				op.gos = append(op.gos, t.Bool(1, 3))
 			}
@@ -208,6 +236,12 @@ func runC13(c *sim.Ctx) *sim.Violation {
 						continue
 					}
 					p := ps[op.pkt]
+					if op.kind == 7 {
+						// a write that fails half way, concurrently with everything else
+						fw := &failingWriter{room: len(seq[op.pkt]) / 2}
+						sim.Guard(func() { p.WriteTo(fw) })
+						continue
+					}
 					w := &goschedWriter{gos: op.gos}
 					if pi := sim.Guard(func() { c13Apply(p, op.kind, w) }); pi != nil {
 						res[g] = append(res[g], mismatch{g, k, "panic: " + pi.Value})
